@@ -416,6 +416,44 @@ def r5_promotion_complete(ctx):
                             ctx.bad("copy-routine|%s|array-passthrough" % short, g.where(b), "the Array arm of Value::%s returns `%s` without visiting the items" % (short, sh(ne(g.deep_rvalue(rv)))[:50]))
                     if not rets:
                         ctx.bad("copy-routine|%s|array-result-missing" % short, g.where(), "cannot see what the Array arm of Value::%s returns" % short)
+                    # ... and everything that goes into the new vector comes out of the recursive call: no bulk move of
+                    # items (unless the path is guarded by `all(<only heap-free kinds>)`)
+                    ADDERS = ("push", "extend", "append", "insert", "extend_from_slice", "extend_from_within", "push_within_capacity", "resize", "resize_with", "from_iter", "collect", "extend_trusted", "spec_extend")
+                    for c in g.calls():
+                        if c.block not in only:
+                            continue
+                        last = (c.callee or "").split("::")[-1]
+                        if last not in ADDERS or "Vec" not in (c.callee or "") and last not in ("collect", "from_iter", "extend"):
+                            continue
+                        if last == "push":
+                            prod = [(k, d[0] if k == "call" else d) for (bi, k, d) in origins(g, c.args[1], 6)]
+                            if prod and all(k == "call" and d == fid for k, d in prod):
+                                ctx.ok("copy-routine|%s|items-through-recursion" % short, g.where(c.block), "each pushed item is the result of %s on the source item" % short)
+                            else:
+                                ctx.bad("copy-routine|%s|item-not-copied" % short, g.where(c.block), "the Array arm of Value::%s pushes an item that did not go through %s (%s): a string inside it keeps borrowing storage that is released" % (short, short, prod[:2]))
+                            continue
+                        # bulk transfer: acceptable only under a dominating `all(|item| matches!(item, <heap-free kinds>))`
+                        guarded = False
+                        for S3, al in g.constraints(c.block):
+                            si3 = g.switch_info(S3)
+                            if si3["kind"] == "call" and (si3["callee"] or "").split("::")[-1] == "all" and 0 not in al:
+                                clos = [k for k in ctx.lib.closures_of(g.id)]
+                                for k in clos:
+                                    trues = set()
+                                    for S4 in sorted(k.live):
+                                        if k.blocks[S4]["t"]["k"] == "switch":
+                                            si4 = k.switch_info(S4)
+                                            if si4["kind"] == "discr" and si4["ty"].endswith("runtime::Value"):
+                                                for lab4, t4 in k.succ[S4]:
+                                                    sets_true = any(st["lhs"]["l"] == 0 and st["rv"]["k"] == "use" and isinstance(st["rv"]["a"], dict) and st["rv"]["a"].get("int") == 1 for b4 in k.reach([t4], removed_nodes=[S4]) for st in k.blocks[b4]["s"])
+                                                    if sets_true:
+                                                        trues |= label_names(k, S4, [lab4], si4)
+                                    if trues and trues <= HEAPLESS:
+                                        guarded = True
+                        if guarded:
+                            ctx.ok("copy-routine|%s|bulk-heapless" % short, g.where(c.block), "bulk move only when all items are heap-free")
+                        else:
+                            ctx.bad("copy-routine|%s|bulk-move|%s" % (short, last), g.where(c.block), "the Array arm of Value::%s moves items into the new vector in bulk (`%s`) without a dominating test that *all* of them are heap-free: strings and nested arrays among them keep pointing into the frame / the source variable's slots" % (short, last))
         if rec:
             ctx.ok("copy-routine|%s|recurses-into-arrays" % fid.split("::")[-1], g.where(), "the Array arm calls %s on the items" % fid.split("::")[-1])
         else:
@@ -486,7 +524,208 @@ def r5_promotion_complete(ctx):
         ctx.note("HostHandle::promote has no pass-through path")
 
 
-RULES = [("C02-R1", r1_promote_before_store), ("C02-R2", r2_copy_before_free), ("C02-R4", r4_resets), ("C02-R5", r5_promotion_complete)]
+# ---------------------------------------------------------------------------------------------------------------------
+# R6: no possibly-borrowed value is held across a call that can recycle storage
+RECYCLERS = {FREE, "arena::pool::PoolSet::dealloc"}
+OWNING = DETACH_OK | {"runtime::Value::clone_into_owned"}
+
+
+def may_recycle_set(ctx):
+    """Functions from which a pool slot can be returned (transitively): running any of them may free the slot a borrowed
+    string points into."""
+    cg = ctx.lib.callgraph()
+    nodes = {parent_fn(k) for k in ctx.lib.fns}
+    adj = {}
+    for src, d in cg.items():
+        for cal in d:
+            if parent_fn(cal) in nodes:
+                adj.setdefault(parent_fn(src), set()).add(parent_fn(cal))
+    radj = {}
+    for a, bs in adj.items():
+        for b in bs:
+            radj.setdefault(b, set()).add(a)
+    out, st = set(), [x for x in RECYCLERS if x in nodes]
+    while st:
+        x = st.pop()
+        if x in out:
+            continue
+        out.add(x)
+        st.extend(radj.get(x, ()))
+    return out
+
+
+def _carrier(ty):
+    t = ty.replace("'_ ", "").replace("'a ", "")
+    if t.startswith("&mut") or t.startswith("*"):
+        return None
+    if "runtime::Value" in t:
+        return "vec" if ("Vec<" in t and not t.startswith("&")) else ("ref" if t.startswith("&") else "value")
+    if t.startswith("&") and "ArenaCow" in t:
+        return "ref"
+    if "ArenaCow" in t:
+        return "value"
+    return None
+
+
+def _owned_operand(fn, operand, depth=0):
+    """Every producer of the operand hands out storage of its own (detach / promote / alloc_str), or no heap data at all."""
+    why = []
+    hf = frame_switches(fn)
+    for (bi, k, det) in origins(fn, operand, 8):
+        if k == "const":
+            continue
+        if k == "call" and det[0] in OWNING:
+            continue
+        if bi is not None and any(no_frame_edge_dominates(fn, b, hf) for b in chain_blocks(bi)):
+            continue    # the configuration without a frame arena is the reference the property compares with
+        if k == "agg" and det[0] == "runtime::Value" and det[1] in HEAPLESS:
+            continue
+        if k == "agg" and det[0] == "runtime::Value" and det[1] in ("Str", "Array", "Host") and depth < 3:
+            if all(_owned_operand(fn, o, depth + 1)[0] for o in det[2]):
+                continue
+        if k == "agg" and det[0].endswith("ArenaCow") and det[1] == "Owned":
+            continue
+        if k == "call" and (det[0].endswith("::branch") or det[0].endswith("::from_residual")) and depth < 4:
+            # `?` on a Result: look through to what was tried
+            if all(_owned_operand(fn, a, depth + 1)[0] for a in det[1].get("args", [])):
+                continue
+        why.append("%s:%s" % (k, (det[0] if k in ("call", "agg") else det)))
+    return (not why, why)
+
+
+def _uses_are_heap_free(fn, l, from_blocks, depth=0):
+    """After the call, the local is only asked for its kind or read as a heap-free variant (Number / Bool / Null), possibly
+    after being moved into a tuple that is matched the same way."""
+    region = fn.reach(from_blocks)
+    for b in sorted(region):
+        blk = fn.blocks[b]
+        for st in blk["s"]:
+            rv = st["rv"]
+            places = []
+            for key in ("a", "b"):
+                if key in rv and isinstance(rv[key], dict):
+                    pl = rv[key].get("move") or rv[key].get("copy")
+                    if pl is not None:
+                        places.append((pl, rv["k"]))
+            if isinstance(rv.get("of"), dict):
+                places.append((rv["of"], rv["k"]))
+            for o in rv.get("ops", []):
+                if isinstance(o, dict):
+                    pl = o.get("move") or o.get("copy")
+                    if pl is not None:
+                        places.append((pl, "agg:" + str(rv.get("adt"))))
+            for pl, how in places:
+                if pl["l"] != l:
+                    continue
+                if how == "discr":
+                    continue
+                if any(isinstance(e, dict) and e.get("as") in HEAPLESS for e in pl["p"]):
+                    continue
+                whole = not pl["p"] or all(isinstance(e, dict) and "f" in e and str(e["f"]).isdigit() for e in pl["p"]) and False
+                if not pl["p"] and (how == "use" or how.startswith("agg:") and "tuple" in how) and depth < 2 and not st["lhs"]["p"]:
+                    if _uses_are_heap_free(fn, st["lhs"]["l"], [b], depth + 1):
+                        continue
+                return False
+        t = blk["t"]
+        ops = list(t.get("args", [])) + ([t["d"]] if "d" in t else []) + list(t.get("ops", []))
+        for o in ops:
+            if isinstance(o, dict):
+                pl = o.get("move") or o.get("copy")
+                if pl is not None and pl["l"] == l:
+                    if t["k"] == "switch":
+                        continue
+                    return False
+    return True
+
+
+def r6_nothing_borrowed_is_held_across_recycling(ctx):
+    from ..live import liveness, live_across_call
+    from ..tables import mir_enum_table
+    R = may_recycle_set(ctx)
+    n = 0
+    # the one vector that provably holds nothing while its (single) element is evaluated
+    ar = ctx.lib.fns.get("<builtins::GlobalBuiltin as builtins::Builtin>::arity")
+    max_arity = None
+    if ar is not None:
+        tab = mir_enum_table(ar, 1)
+        try:
+            max_arity = max(int(re.sub(r"\D", "", str(v[0])) or 99) for v in tab.values()) if tab else None
+        except Exception:
+            max_arity = None
+    for fn in [f for f in ctx.lib.fns.values() if f.file == "src/runtime.rs" or f.file.startswith("src/builtins/")]:
+        pid = parent_fn(fn.id)
+        if pid in ("runtime::Runtime::relocate_return_value",):
+            continue    # audited under R4 (staging copy before the reset)
+        calls = [c for c in fn.calls() if c.callee and parent_fn(c.callee) in R]
+        if not calls:
+            continue
+        ctx.touch(fn)
+        _, live_out = liveness(fn)
+        for c in calls:
+            moved = set()
+            for a in c.args:
+                pl = a.get("move") if isinstance(a, dict) else None
+                if pl is not None and not pl["p"]:
+                    moved.add(pl["l"])
+            held = sorted(l for l in live_across_call(fn, c.block, live_out) if l > 0 and l not in moved and _carrier(fn.locals[l]["ty"]))
+            for l in held:
+                kind = _carrier(fn.locals[l]["ty"])
+                name = fn.locals[l]["name"] or "_%d" % l
+                n += 1
+                short = pid.split("::")[-1]
+                callee = parent_fn(c.callee).split("::")[-1]
+                base = "held|%s|%s|across:%s" % (short, name, callee)
+                ordn = sum(1 for r in ctx.records if r["rule"] == ctx.rule and r["instance"].split("#")[0] == base)
+                key = "%s#%d" % (base, ordn + 1)
+                ok, why = False, []
+                if kind == "value":
+                    ok, why = _owned_operand(fn, {"copy": {"l": l, "p": []}})
+                    if not ok and c.target is not None and _uses_are_heap_free(fn, l, [c.target]):
+                        ctx.ok(key + "|heap-free-use", fn.where(c.block), "`%s` is only asked for its kind / read as a number after %s returns" % (name, callee))
+                        continue
+                elif kind == "vec":
+                    pushes = [p for p in fn.calls() if (p.callee or "").endswith("Vec::push") and sh(ne(fn.expr(p.args[0], 3))).lstrip("&").replace("mut ", "") in (name, "&mut " + name)]
+                    pushes = pushes or [p for p in fn.calls() if (p.callee or "").endswith("Vec::push") and name in sh(ne(fn.expr(p.args[0], 3)))]
+                    if pid == "runtime::Runtime::eval_builtin_call" and max_arity is not None and max_arity <= 1:
+                        ok, why = True, []
+                        ctx.ok(key + "|arity<=1", fn.where(c.block), "every global built-in takes at most one argument (arity table), and the resolver rejects other counts: the vector is empty while that argument is evaluated")
+                        continue
+                    res = [_owned_operand(fn, p.args[1]) for p in pushes]
+                    ok = all(r[0] for r in res)
+                    why = [w for r in res for w in r[1]]
+                elif kind == "ref":
+                    if 0 < l <= fn.argc:
+                        sites = ctx.lib.callers_of(fn.id)
+                        res = []
+                        for cs in sites:
+                            a = cs.args[l - 1] if l - 1 < len(cs.args) else None
+                            tgt = None
+                            if isinstance(a, dict):
+                                pl = a.get("move") or a.get("copy")
+                                if pl is not None and not pl["p"]:
+                                    for (bi, k, st) in cs.fn.whole_defs(pl["l"]):
+                                        if k != "t" and st["rv"]["k"] == "ref" and not st["rv"]["of"]["p"]:
+                                            tgt = st["rv"]["of"]["l"]
+                                        elif k != "t" and st["rv"]["k"] == "ref":
+                                            res.append((False, ["place:" + cs.fn.place_str(st["rv"]["of"])]))
+                            if tgt is not None:
+                                res.append(_owned_operand(cs.fn, {"copy": {"l": tgt, "p": []}}))
+                            elif not res:
+                                res.append((False, ["unknown-argument"]))
+                        ok = bool(res) and all(r[0] for r in res)
+                        why = [w for r in res for w in r[1]]
+                    else:
+                        ok, why = False, ["reference of unknown origin"]
+                if ok:
+                    ctx.ok(key, fn.where(c.block), "`%s` owns its storage while %s runs" % (name, callee))
+                else:
+                    ctx.bad(key, fn.where(c.block),
+                            "`%s` (%s) is kept while %s runs and used afterwards, but it may hold strings that only borrow a variable's pool slot (producers: %s). %s can execute an assignment to that variable, which returns the slot to the pool: the kept value then reads recycled storage (wrong text; poison bytes or an abort in debug builds)" % (
+                                name, fn.locals[l]["ty"][:40], callee, sorted(set(why))[:3], callee))
+    ctx.floor("values held across calls that can recycle storage", n, 10)
+
+
+RULES = [("C02-R1", r1_promote_before_store), ("C02-R2", r2_copy_before_free), ("C02-R4", r4_resets), ("C02-R5", r5_promotion_complete), ("C02-R6", r6_nothing_borrowed_is_held_across_recycling)]
 
 EXPLANATION = (
     "The interpreter launders lifetimes with unsafe code, so the borrow checker is blind where this property lives; the rules "
@@ -497,9 +736,15 @@ EXPLANATION = (
     "only from the audited bodies; relocate_return_value resets the callee frame exactly once on every path, stages frame-owned "
     "strings on the persistent arena before the reset and rebuilds from the staged copy, promotes arrays before the reset; loop "
     "and call offsets are captured before the body/arguments run. R5: Value::promote / ArenaCow::promote / HostHandle::promote "
-    "handle every variant and pass data through only under the containment tests. Decides the presence and order of the "
-    "mechanism on all paths; does not decide absence of every stale read (no full alias analysis), nor output equality with "
-    "reclamation off."
+    "handle every variant and pass data through only under the containment tests; every copy routine's Array arm returns a new "
+    "vector whose items all went through the recursive call (bulk moves only under all(<heap-free kinds>)); array arguments are "
+    "detached before they are bound to parameters. R6: backward liveness of MIR locals in runtime.rs and builtins/: a local that "
+    "can carry a script value (Value, Vec<Value>, ArenaCow, references to those) and is live across a call from which a pool slot "
+    "can be released (call-graph reachability to return_to_pool / PoolSet::dealloc) must own its storage - all its producers are "
+    "promote / detach / alloc_str or heap-free constructors - unless it is only asked for its kind or read as a number afterwards. "
+    "Decides the presence and order of the mechanism on all paths and, with R6, every place where a possibly-borrowed value is "
+    "kept across re-entrant evaluation (13 such places are open known findings, each with a failing script); does not decide "
+    "output equality with reclamation off, nor aliasing through raw pointers outside runtime.rs/builtins."
 )
 ASSUMPTIONS = ["values reach variables only through the sinks discovered by type in runtime.rs", "cfg(test)/wasm/windows code not analysed"]
 TRUSTED = ["rustc nightly MIR construction", "nsx exporter", "nsverif dominance / provenance (flow-insensitive over defs of a local)"]
